@@ -9,8 +9,11 @@ def judge(n, conn, gens, fmt, trace):
     stab = impl.make_stabilizer(gens, n, fmt, trace)
     if stab is None:
         return None, None
+    snap = (stab.to_list(), stab.R.copy(), stab.S.copy(), stab.phases.copy())
     qc = impl.stabilizer_circuits.get_preparation_circuit(stab, conn)
     msgs = []
+    if stab.to_list() != snap[0] or not ((stab.R == snap[1]).all() and (stab.S == snap[2]).all() and (stab.phases == snap[3]).all()):
+        msgs.append("the call changed the Stabilizer object passed in: %r -> %r" % (snap[0], stab.to_list()))
     if qc.num_qubits != n or qc.num_clbits != 0:
         msgs.append("returned circuit has %d qubits / %d clbits" % (qc.num_qubits, qc.num_clbits))
     ops = impl.circuit_ops(qc, keep_measure=True)
